@@ -358,11 +358,11 @@ Example ex_run :
   @q_run N [OIns 10; OIns 11; OIns 12; ORem 1; OIns 13; ORem 0; ORem 0; OInsAt 0 14; OIns 15; ODrain; OIns 16] =
   Ok (mkQ 1 1 [Some 16],
       [RIns (Some 0); RIns (Some 1); RIns (Some 2); RRem (Some 11); RIns (Some 3); RRem (Some 10); RRem None;
-       RInsAt; RIns (Some 1); RDrain [14; 15; 12; 13]; RIns (Some 0)]).
+       RInsAt; RIns (Some 4); RDrain [14; 12; 13; 15]; RIns (Some 0)]).
 Proof. vm_compute. reflexivity. Qed.
 
 Example ex_legal : @q_legal N [OIns 10; OIns 11; ORem 0; OInsAt 0 14].
-Proof. cbn. unfold slot_at. cbn. tauto. Qed.
+Proof. vm_compute. repeat split. Qed.
 
 (* insert_at on an occupied slot (precondition violated) breaks count: this is
    why q_legal is a premise *)
